@@ -1,5 +1,6 @@
 import Sml.Props.C17
 import Sml.Lemmas.C17Bytes
+import Sml.Props.C05Vec
 /- Axiom audit for property C17: only propext / Classical.choice / Quot.sound may appear. -/
 #print axioms Sml.C17.tiling
 #print axioms Sml.C17.tiling_ok
@@ -15,3 +16,4 @@ import Sml.Lemmas.C17Bytes
 #print axioms Sml.C17.delivered_tile
 #print axioms Sml.C17.leftover
 #print axioms Sml.C17.tiling_anchored
+#print axioms Sml.C17.tiling_history_fallible
